@@ -40,7 +40,7 @@ func (c *BetaController) ListBeta(filter []string, rank Rank) ([]BetaBody, error
 // @Method(PATCH)
 // @Route(/things/{thingId}/)
 // @Path(id, { name: "thingId" })
-// @FormField(label)
+// @FormField(label, { name: "label_text", validate: "required" })
 // @FormField(weight)
 // @Response(202) Accepted
 // @ErrorResponse(409) Conflict
